@@ -1,5 +1,217 @@
 /-
-C01 — property theorems (stub: no theorem stated yet, so no obligation is counted).
+C01 — BGZF write → read round trip is lossless for every write pattern and setting.
+PROPERTY THEOREMS ONLY (helper lemmas live in Hts.Lemmas.Bgzf*).  Every statement quantifies over all
+scripts, payloads, block contents and read sizes; nothing here is bounded or sampled.
+
+Models: Hts.Model.BgzfWriter (block splitting of Write/Flush/Wait/Close), Hts.Model.Member (member
+framing, `Codec` = DEFLATE/CRC-32 with the laws assumed), Hts.Model.BgzfSeqRead (Read/ReadByte over
+decoded blocks).  Compression level is inside `Codec`; writer/reader concurrency (wc, rd) does not
+occur in these sequential models: its irrelevance is owned by C12 (writer) and C02 (reader) and is
+checked here by correspondence only.
 -/
+import Hts.Lemmas.BgzfWriter
+import Hts.Lemmas.BgzfSeqRead
+import Hts.Lemmas.BgzfStream
+import Hts.Lemmas.BgzfToyCodec
 namespace Hts.Props.C01
+open Hts.Model Hts.Model.BgzfWriter
+
+/-! ### writer invariant -/
+
+/-- Whatever the script, the queued blocks followed by the active block are exactly the accepted
+payloads, concatenated in call order (nothing lost, duplicated or reordered). -/
+theorem writer_flatten {α : Type} (ops : List (Op α)) :
+    (after ops).emitted.flatten ++ (after ops).active = accepted ops :=
+  after_held ops
+
+/-- Whatever the script: the active block is never full; until Close every queued block has between 1
+and BlockSize bytes; after Close the queue is such data blocks followed by the one block Close queued
+(shorter than BlockSize, possibly empty) and the active block is empty. -/
+theorem writer_blocks {α : Type} (ops : List (Op α)) :
+    (after ops).active.length < BlockSize ∧
+    ((after ops).closed = false → ∀ blk ∈ (after ops).emitted, 1 ≤ blk.length ∧ blk.length ≤ BlockSize) ∧
+    ((after ops).closed = true → (after ops).active = [] ∧ ∃ pre last, (after ops).emitted = pre ++ [last] ∧
+        (∀ blk ∈ pre, 1 ≤ blk.length ∧ blk.length ≤ BlockSize) ∧ last.length < BlockSize) := by
+  have h := after_inv ops
+  exact ⟨h.active_lt, h.open_blocks, h.closed_blocks⟩
+
+/-- The writer is closed exactly when the script contains a Close. -/
+theorem writer_closed_iff {α : Type} (ops : List (Op α)) : (after ops).closed = hasClose ops :=
+  after_closed ops
+
+/-- A Write on an open writer accepts every byte. -/
+theorem write_accepts_all {α : Type} (s : State α) (b : List α) (h : s.closed = false) :
+    (write BlockSize blockSize_pos s b).2 = .ok b.length := by
+  simp [write, h]
+
+/-- A payload that fits into the room left in the active block is appended to it (and the block is
+queued exactly when that fills it): it is not split. -/
+theorem write_fits_not_split {α : Type} (s : State α) (b : List α) (hc : s.closed = false) (hb : b ≠ [])
+    (hfit : s.active.length + b.length ≤ BlockSize) :
+    (write BlockSize blockSize_pos s b).1 =
+      if s.active.length + b.length = BlockSize then { s with active := [], emitted := s.emitted ++ [s.active ++ b] }
+      else { s with active := s.active ++ b } := by
+  simp only [write, hc, Bool.false_eq_true, if_false, writeLoop_fits BlockSize blockSize_pos b s.active s.emitted hb hfit]
+  split <;> rfl
+
+/-- A payload of at most one block that does not fit into the room left makes the writer queue the
+active block and start a new one with the payload: it is not split either. -/
+theorem write_nofit_own_block {α : Type} (s : State α) (b : List α) (hc : s.closed = false)
+    (ha : s.active ≠ []) (hal : s.active.length ≤ BlockSize)
+    (hnofit : BlockSize < s.active.length + b.length) (hb : b.length ≤ BlockSize) :
+    (write BlockSize blockSize_pos s b).1 =
+      if b.length = BlockSize then { s with active := [], emitted := s.emitted ++ [s.active] ++ [b] }
+      else { s with active := b, emitted := s.emitted ++ [s.active] } := by
+  simp only [write, hc, Bool.false_eq_true, if_false,
+    writeLoop_nofit BlockSize blockSize_pos b s.active s.emitted ha hal hnofit hb]
+  split <;> rfl
+
+/-- Hence in every reachable open state a non-empty payload of at most BlockSize bytes lands inside a
+single block (queued or active). -/
+theorem write_lands_in_one_block {α : Type} (ops : List (Op α)) (b : List α) (hc : (after ops).closed = false)
+    (hb : b ≠ []) (hlen : b.length ≤ BlockSize) :
+    let s' := (write BlockSize blockSize_pos (after ops) b).1
+    ∃ blk ∈ s'.emitted ++ [s'.active], b <:+: blk := by
+  have hlt := (writer_blocks ops).1
+  by_cases hfit : (after ops).active.length + b.length ≤ BlockSize
+  · simp only [write_fits_not_split _ b hc hb hfit]
+    split
+    · exact ⟨(after ops).active ++ b, by simp, ⟨(after ops).active, [], by simp⟩⟩
+    · exact ⟨(after ops).active ++ b, by simp, ⟨(after ops).active, [], by simp⟩⟩
+  · have ha : (after ops).active ≠ [] := by
+      intro h; rw [h] at hfit; simp at hfit; omega
+    simp only [write_nofit_own_block _ b hc ha (Nat.le_of_lt hlt) (by omega) hlen]
+    split
+    · exact ⟨b, by simp, List.infix_refl b⟩
+    · exact ⟨b, by simp, List.infix_refl b⟩
+
+/-! ### sequential reader -/
+
+open BgzfSeqRead in
+/-- In every history of Read/ReadByte calls on a file with decoded blocks `blocks` (any sizes, empty
+blocks anywhere), the next call returns exactly the next `min want remaining` bytes of the flat data, and
+reports io.EOF exactly when fewer bytes than asked for were left or nothing was left. -/
+theorem reader_flat {α : Type} (blocks : List (List α)) (s0 : BgzfSeqRead.State α) (hinit : init blocks = some s0)
+    (pre : List BgzfSeqRead.Op) (op : BgzfSeqRead.Op) :
+    let pos := (pre.map Op.want).sum
+    let r := step (BgzfSeqRead.run s0 pre).1 op
+    r.2.1 = (blocks.flatten.drop pos).take op.want ∧
+    (r.2.2 = true ↔ ((blocks.flatten.drop pos).length < op.want ∨ blocks.flatten.drop pos = [])) := by
+  obtain ⟨hinv, hrem⟩ := init_inv blocks s0 hinit
+  obtain ⟨_, h2, h3⟩ := run_spec s0 pre hinv
+  obtain ⟨s1, s2, s3, _⟩ := step_spec (BgzfSeqRead.run s0 pre).1 op h3
+  rw [h2, hrem] at s1 s3
+  exact ⟨s1, s3⟩
+
+open BgzfSeqRead in
+/-- The bytes returned by any history are, concatenated, a prefix of the flat data: its first
+`Σ want` bytes. -/
+theorem reader_prefix {α : Type} (blocks : List (List α)) (s0 : BgzfSeqRead.State α) (hinit : init blocks = some s0)
+    (ops : List BgzfSeqRead.Op) :
+    delivered (BgzfSeqRead.run s0 ops).2 = blocks.flatten.take (ops.map Op.want).sum := by
+  obtain ⟨hinv, hrem⟩ := init_inv blocks s0 hinit
+  rw [(run_spec s0 ops hinv).1, hrem]
+
+open BgzfSeqRead in
+/-- A short or empty result only happens together with io.EOF, and once a call has returned io.EOF
+everything returned so far is the whole flat data. -/
+theorem reader_eof_complete {α : Type} (blocks : List (List α)) (s0 : BgzfSeqRead.State α) (hinit : init blocks = some s0)
+    (pre : List BgzfSeqRead.Op) (op : BgzfSeqRead.Op) :
+    let r := step (BgzfSeqRead.run s0 pre).1 op
+    (r.2.1.length < op.want → r.2.2 = true) ∧
+    (r.2.2 = true → delivered (BgzfSeqRead.run s0 pre).2 ++ r.2.1 = blocks.flatten) := by
+  obtain ⟨h1, h2⟩ := reader_flat blocks s0 hinit pre op
+  have hp := reader_prefix blocks s0 hinit pre
+  simp only at h1 h2 ⊢
+  refine ⟨fun hshort => ?_, fun heof => ?_⟩
+  · rw [h2]; rw [h1, List.length_take] at hshort; left; omega
+  · rw [hp, h1]
+    have hle : (blocks.flatten.drop (pre.map Op.want).sum).length ≤ op.want := by
+      rcases h2.mp heof with h | h
+      · omega
+      · simp [h]
+    rw [List.take_of_length_le hle, List.take_append_drop]
+
+/-! ### round trip -/
+
+open Member in
+/-- For every codec satisfying the laws, every header setting the gzip reader can take, every write
+script that closes the writer and whose Close returned nil: the reader meets blocks whose concatenation
+is exactly the accepted payloads, so (by `reader_flat`/`reader_eof_complete`) every mix of Read sizes and
+ReadByte returns those bytes in order and then io.EOF. -/
+theorem roundtrip (c : Codec) (h : Header) (hr : ReaderOK h) (wops : List (Op Byte)) (hclose : hasClose wops = true)
+    (hok : (closeOutput c.toCodecFns h (after wops).emitted).2 = none) :
+    ∃ blocks r0, readStream c.toCodecFns (closeOutput c.toCodecFns h (after wops).emitted).1 = some blocks ∧
+      BgzfSeqRead.init blocks = some r0 ∧ blocks.flatten = accepted wops ∧
+      ∀ rops : List BgzfSeqRead.Op,
+        BgzfSeqRead.delivered (BgzfSeqRead.run r0 rops).2 = (accepted wops).take (rops.map BgzfSeqRead.Op.want).sum := by
+  have hcl : (after wops).closed = true := by rw [writer_closed_iff, hclose]
+  obtain ⟨_, _, hcb⟩ := writer_blocks wops
+  obtain ⟨hact, pre, last, hem, hpre, hlast⟩ := hcb hcl
+  -- Close returned nil: every queued block was written
+  have hrn : (render c.toCodecFns h (after wops).emitted).2 = none := by
+    simpa only [closeOutput_eq] using hok
+  have hw := (render_snd_none _ _ _).mp hrn
+  have hout : (closeOutput c.toCodecFns h (after wops).emitted).1 =
+      (((after wops).emitted.map (mb c.toCodecFns h)).flatten ++ magicBlock) := by
+    simp only [closeOutput_eq, render_fst, hrn, hw, if_true]
+  have hfits : ∀ p ∈ (after wops).emitted, Fits c.toCodecFns h p ∧ p.length ≤ BgzfWriter.MaxBlockSize := by
+    intro p hp
+    refine ⟨by have := written_fits c.toCodecFns h (after wops).emitted p; rw [hw] at this; exact this hp, ?_⟩
+    rw [hem] at hp
+    rcases List.mem_append.mp hp with h' | h'
+    · have := (hpre p h').2; simp [BlockSize, MaxBlockSize] at this ⊢; omega
+    · simp at h'; subst h'; simp [BlockSize, MaxBlockSize] at hlast ⊢; omega
+  have hrs := readStream_closed c h hr (after wops).emitted hfits
+  have hflat : ((after wops).emitted ++ [[]]).flatten = accepted wops := by
+    have := writer_flatten wops
+    rw [hact] at this; simpa using this
+  cases hem' : (after wops).emitted ++ [[]] with
+  | nil => simp at hem'
+  | cons b bs =>
+    refine ⟨b :: bs, ⟨b, bs, false⟩, by rw [hout, hrs, hem'], rfl, by rw [← hem', hflat], fun rops => ?_⟩
+    have := reader_prefix (b :: bs) ⟨b, bs, false⟩ rfl rops
+    rw [this, ← hem', hflat]
+
+open Member in
+/-- With the writer's default header and a codec within zlib's deflateBound (what `compressBound`
+relies on), no block of at most BlockSize bytes is ever refused. -/
+theorem default_header_fits (c : CodecFns) (hb : Bounded c) (p : List Byte) (hp : p.length ≤ BlockSize) :
+    Fits c {} p :=
+  default_fits c hb p hp
+
+open Member in
+/-- Hence, with the default header (what C01 quantifies over: levels, wc, rd, scripts) and a lawful codec
+within the bound, EVERY script that closes the writer round-trips: Close returns nil and the reader
+delivers exactly the accepted payloads for every read script. -/
+theorem roundtrip_default (c : Codec) (hb : Bounded c.toCodecFns) (wops : List (Op Byte)) (hclose : hasClose wops = true) :
+    (closeOutput c.toCodecFns {} (after wops).emitted).2 = none ∧
+    ∃ blocks r0, readStream c.toCodecFns (closeOutput c.toCodecFns {} (after wops).emitted).1 = some blocks ∧
+      BgzfSeqRead.init blocks = some r0 ∧ blocks.flatten = accepted wops ∧
+      ∀ rops : List BgzfSeqRead.Op,
+        BgzfSeqRead.delivered (BgzfSeqRead.run r0 rops).2 = (accepted wops).take (rops.map BgzfSeqRead.Op.want).sum := by
+  have hok := default_output_ok c.toCodecFns hb wops hclose
+  exact ⟨hok, roundtrip c {} ⟨by simp, by simp⟩ wops hclose hok⟩
+
+/-! ### non-vacuity (tests, not the claim) -/
+
+/-- a 3-op script with a payload of BlockSize + 1 bytes: one full block, then one byte, then Close's block -/
+example : ((run BlockSize blockSize_pos State.init
+      [Op.write (List.replicate (BlockSize + 1) ()), Op.flush, Op.close]).1.emitted.map List.length)
+    = [BlockSize, 1, 0] := demo_split BlockSize (by decide)
+example : hasClose [Op.write [1, 2, 3], Op.flush, (Op.close : Op Nat)] = true := rfl
+example : BgzfSeqRead.init [[1, 2], [], [3]] = some ⟨[1, 2], [[], [3]], false⟩ := rfl
+/-- reading across an empty block, then past the end -/
+example : (BgzfSeqRead.run ⟨[1, 2], [[], [3]], false⟩ [.read 1, .readByte, .read 5, .read 1]).2
+    = [([1], false), ([2], false), ([3], true), ([], true)] := by
+  simp [BgzfSeqRead.run, BgzfSeqRead.step, BgzfSeqRead.read, BgzfSeqRead.readByte, BgzfSeqRead.skipEmpty,
+    BgzfSeqRead.readLoop]
+
+/-- the codec laws (with the size bound) are satisfiable, and so are the header hypotheses -/
+example : ∃ c : Member.Codec, Member.Bounded c.toCodecFns := ⟨Member.Toy.codec, Member.Toy.bounded⟩
+example : Member.ReaderOK { name := [0x66, 0xe9], comment := [1] } := ⟨by decide, by decide⟩
+/-- an instance of the round trip for a concrete script and the toy codec -/
+example := roundtrip_default Member.Toy.codec Member.Toy.bounded
+  [Op.write [1, 2, 3], Op.flush, Op.write [], Op.write [4], Op.wait, Op.close] rfl
+
 end Hts.Props.C01
